@@ -57,7 +57,7 @@ func withWatchdog(f func()) bool {
 // the open finding F-LOOSETOKENS.
 func looseReason(r string) bool {
 	switch r {
-	case model.ReasonBadToken, model.ReasonBadPath, model.ReasonChainedCmp, model.ReasonOperandParen, model.ReasonNonBoolean, model.ReasonValueAsPath, model.ReasonPathAsValue:
+	case model.ReasonBadToken, model.ReasonBadPath, model.ReasonChainedCmp, model.ReasonOperandParen, model.ReasonNonBoolean, model.ReasonValueAsPath, model.ReasonPathAsValue, model.ReasonBoolOperand:
 		return true
 	}
 	return false
